@@ -114,7 +114,8 @@ func Iterate(obj Object, fn func(Object) bool) error {
 		}
 		for {
 			item, err := Next(iterator)
-			if err == StopIteration {
+			if err != nil && IsException(StopIteration, err) {
+				// raised as the class or as an instance
 				break
 			}
 			if err != nil {
